@@ -47,6 +47,9 @@ fn main() {
             conn::generate(seed, n, bias, &mut lines, &mut st);
             stats_json = st.json();
         }
+        "conn-replay" => {
+            lines.push(conn::replay(&args[2..]));
+        }
         "framing-replay" => {
             let mut st = framing::Stats::new();
             let nums: Vec<u64> = args[2..].iter().filter_map(|s| s.parse().ok()).collect();
